@@ -9,8 +9,9 @@ package main
 //     scorer; BlugeProofs.C20 proves each equal to what the hand-written model uses;
 //   - a fact table (normalised source text; local identifiers are `_`) of the statement order and guards of
 //     the two Format loops, of MergeOverlapping, and of the loop conditions and bail tests of Fragment;
-//   - `variant`: which of the proposed repairs (work/C20/fix-1..3) the tree contains, recognised by the
-//     exact guard forms; the model driver and the theorems about "this tree" use it.
+//   - `variant`: which of the proposed repairs (work/C20/fix-1..5) the tree contains, recognised by the
+//     exact guard forms (fix-4: `Less` compares (Start, End); fix-5: MergeOverlapping keeps the larger End);
+//     the model driver and the theorems about "this tree" use it.
 //
 // Anything outside the recognised shapes is a refusal.
 
@@ -342,6 +343,16 @@ func genC20(c *Ctx) {
 	}
 	recvT := less.Recv.List[0].Names[0].Name
 	lessLean := g.cmp(lret.Results[0], map[string]string{recvT + "[" + idx[0] + "]": "a", recvT + "[" + idx[1] + "]": "b"})
+	// repair 4: which of the two known forms the comparison has (the translation above carries the operands;
+	// BlugeProofs.C20.gen_less proves it equal to the model's `lessTL variant.tieBreak`)
+	tieBreak := false
+	switch t := g.norm(lret.Results[0]); t {
+	case "_[_].Start < _[_].Start":
+	case "_[_].Start < _[_].Start || (_[_].Start == _[_].Start && _[_].End < _[_].End)":
+		tieBreak = true
+	default:
+		c.Refuse("TermLocations.Less has neither of the two known forms: `%s`", t)
+	}
 
 	// scorer: the innermost `if` of Score
 	score := g.fn("SimpleFragmentScorer.Score")
@@ -408,7 +419,11 @@ func genC20(c *Ctx) {
 	}
 
 	// MergeOverlapping
-	g.add("merge", g.block(g.fn("TermLocations.MergeOverlapping").Body))
+	mergeSrc := g.block(g.fn("TermLocations.MergeOverlapping").Body)
+	g.add("merge", mergeSrc)
+	// repair 5: `lastTl.End = tl.End` guarded by `tl.End > lastTl.End` (the fact table pins the whole loop;
+	// the flag only says which of the two tables to expect)
+	mergeMax := strings.Contains(mergeSrc, "if _.End > _.End { _.End = _.End }")
 
 	// Fragment: loop conditions, bail tests, the no-location branch, the location filter
 	frag := g.fn("SimpleFragmenter.Fragment")
@@ -532,7 +547,7 @@ func genC20(c *Ctx) {
 	fmt.Fprintf(&sb, "/-- (f *Fragment) Overlaps(other) -/\ndef overlapsFrag (a b : Fragment) : Bool := %s\n", ovFr)
 	fmt.Fprintf(&sb, "/-- TermLocations.Less(i, j): a = t[i], b = t[j] -/\ndef lessTL (a b : TermLocation) : Bool := %s\n", lessLean)
 	fmt.Fprintf(&sb, "/-- the scorer's test: a = location, b = fragment -/\ndef inside (a : TermLocation) (b : Fragment) : Bool := %s\n\n", insideLean)
-	fmt.Fprintf(&sb, "/-- which of the repairs work/C20/fix-1..3 this tree contains -/\ndef variant : Variant := ⟨%s, %s, %s⟩\n\n", b2s(sizeGuard), b2s(locGuardFrag), b2s(runeCut))
+	fmt.Fprintf(&sb, "/-- which of the repairs work/C20/fix-1..5 this tree contains -/\ndef variant : Variant := ⟨%s, %s, %s, %s, %s⟩\n\n", b2s(sizeGuard), b2s(locGuardFrag), b2s(runeCut), b2s(tieBreak), b2s(mergeMax))
 	sb.WriteString("def facts : List (String × String) := [\n")
 	for i, f := range g.facts {
 		comma := ","
@@ -543,7 +558,7 @@ func genC20(c *Ctx) {
 	}
 	sb.WriteString("]\n\nend BlugeGen.C20\n")
 	c.WriteLean("C20", sb.String())
-	c.Summary["variant"] = map[string]bool{"sizeGuard": sizeGuard, "locGuard": locGuardFrag, "runeCut": runeCut}
+	c.Summary["variant"] = map[string]bool{"sizeGuard": sizeGuard, "locGuard": locGuardFrag, "runeCut": runeCut, "tieBreak": tieBreak, "mergeMax": mergeMax}
 	c.Summary["facts"] = len(g.facts)
 	c.Summary["kernels"] = []string{"TermLocation.Overlaps", "Fragment.Overlaps", "TermLocations.Less", "SimpleFragmentScorer.Score test"}
 }
